@@ -10,6 +10,7 @@ mod c12;
 mod c13;
 mod c14;
 mod c15;
+mod c16;
 mod c17;
 mod common;
 mod refmodel;
@@ -111,6 +112,7 @@ fn main() {
         "C13" => c13::run(&ctx),
         "C14" => c14::run(&ctx),
         "C15" => c15::run(&ctx),
+        "C16" => c16::run(&ctx),
         _ => usage(),
     };
     let code = finish(&ctx, &rep, t0.elapsed().as_secs_f64());
